@@ -520,7 +520,9 @@ class Queue(Greenlet):
         if not self.relay:
             return
         self._pool_spawn('store', self._load_all)
-        self._pool_spawn('store', self._wait_store)
+        # The wait() listener runs for the lifetime of the queue: it must not
+        # occupy a slot of a bounded store pool.
+        gevent.spawn(self._wait_store)
         while True:
             self.queued_lock.acquire()
             try:
